@@ -633,6 +633,17 @@ def oracle(ctx, case, obs, rep):
             else:
                 fail("lifetime-overrun/other", f"{where}: ended at +{end - start} ms, lifetime {life}")
 
+        def sleeps_ok(sleeps, expected):
+            """the back-off schedule: the documented value, or that value clipped to what is left of the lifetime
+            (sleeping past the lifetime is the separate lifetime-overrun clause)"""
+            if len(sleeps) != len(expected):
+                return False
+            for s, want in zip(sleeps, expected):
+                left = max(0, life - (s["t0"] - start))
+                if s["ms"] != want and not (want > left and s["ms"] == left):
+                    return False
+            return True
+
         # ---- walk the trace candidate by candidate
         cache = dict(o["before"])  # reference view of the cache during this resolution (live entries at start)
         qi = 0
@@ -684,7 +695,7 @@ def oracle(ctx, case, obs, rep):
                         exp_sleeps = [backoff]
                     else:
                         exp_sleeps = []
-                    if [s["ms"] for s in sleeps] != exp_sleeps:
+                    if not sleeps_ok(sleeps, exp_sleeps):
                         fail("schedule/backoff", f"{where}: sleeps {[s['ms'] for s in sleeps]} before the end, expected {exp_sleeps}")
                     seg_done = True
                     break
@@ -711,7 +722,7 @@ def oracle(ctx, case, obs, rep):
                         exp_sleeps = [backoff]
                         backoff = min(backoff * 2, 2000)
                         ctx.count("branch.rearm")
-                    if [s["ms"] for s in sleeps] != exp_sleeps:
+                    if not sleeps_ok(sleeps, exp_sleeps):
                         fail("schedule/backoff", f"{where}: sleeps {[s['ms'] for s in sleeps]} before query {qi}, expected {exp_sleeps}")
                     if not round_q or round_q[0] != sid:
                         fail("schedule/server-order", f"{where}: query {qi} went to {sid}, expected {round_q[:1]}")
